@@ -50,6 +50,8 @@ TIE_SEARCH = {
     "range_iter_next_tie": ("TieIndex", "ObjRangeIter::next"),
     "vec_iter_next_tie": ("TieIndex", "ObjVecIter::next"),
     "tuple_iter_next_same": ("TieIndex", "ObjTupleIter::next"),
+    "resolve_local_tie": ("TieResolver", "Compiler::resolve_local"), "resolve_local_innermost": ("TieResolver", "Compiler::resolve_local"),
+    "add_upvalue_tie": ("TieResolver", "Compiler::add_upvalue"), "add_upvalue_spec": ("TieResolver", "Compiler::add_upvalue"),
     "hash_number_tie": ("TieHash", "hash_number"),
     "fnv_write_tie": ("TieHash", "FnvHasher::write"),
     "allocate_raw_tie": ("TiePacing", "allocate_raw"),
